@@ -10,6 +10,11 @@ from world.udpworld import ConnectionStatus, PacketType, client_addr, sig
 class LifecycleMonitor(Monitor):
     wants_recv = True
     wants_msg = True
+    wants_app = True
+
+    def on_recv_app(self, conn, msgseq, payload):
+        if conn.isServer:
+            self.accepted[id(conn)].append((self.w.k.now, sig(payload)))
 
     def attach(self, world):
         self.w = world
@@ -17,6 +22,7 @@ class LifecycleMonitor(Monitor):
         self.challenge_ok = {}        # id(conn) -> t a CHALLENGE_RESP datagram was accepted
         self.peer_disconnect = {}     # id(conn) -> t a DISCONNECT message was accepted
         self.accept_log = collections.defaultdict(list)
+        self.accepted = collections.defaultdict(list)     # id(server conn) -> [(t, sig)] of application messages it accepted
 
     def post_recv(self, conn, hdr, datagram, pre, result):
         if result is True and conn.isServer:
@@ -61,9 +67,12 @@ class C10(UdpCheck):
                 if not alive:
                     plan.append({"op": "connect", "c": c, "t": round(t, 4), "cb": rng.random() < 0.5})
                     alive = True
+                elif r < 0.05:
+                    plan.append({"op": "rechallenge", "c": c, "t": round(t, 4)})
                 elif r < 0.45:
+                    same_frame = rng.random() < 0.5      # several messages in one datagram
                     for j in range(rng.choice([1, 1, 3, 8])):
-                        plan.append({"op": "send", "c": c, "t": round(t + j * 0.01, 4), "len": rng.choice([8, 9, 20, 100, 700, 3000]),
+                        plan.append({"op": "send", "c": c, "t": round(t + (0 if same_frame else j * 0.01), 4), "len": rng.choice([8, 9, 20, 100, 700, 3000]),
                                      "retry": rng.choice([0, 1, -1]), "cb": False, "api": "send"})
                 elif r < 0.6:
                     plan.append({"op": "disconnect", "c": c, "t": round(t, 4)})
@@ -97,6 +106,8 @@ class C10(UdpCheck):
             plan.append({"op": "shutdown", "t": round(1.0 + rng.random() * (dur - 1.5), 4), "how": how})
         if rng.random() < 0.3:
             cfg["token_repeat"] = rng.choice([1, 2, 4])
+        if n > 1 and rng.random() < 0.2:
+            plan.append({"op": "sockerr", "t": round(1.0 + rng.random() * (dur - 3), 3), "d": rng.choice([0.2, 0.6, 1.5]), "c": rng.randrange(n)})
         cfg["phases"] = []
         if rng.random() < 0.5:
             cfg["phases"].append({"t0": 0.0, "t1": dur, "loss": rng.choice([0.02, 0.1]), "dup": rng.choice([0.0, 0.05, 0.2])})
@@ -207,6 +218,28 @@ class C10(UdpCheck):
                 if k == "message" and x not in sends_by.get(who, ()):
                     vs.append({"kind": "message_not_from_that_client", "key": "", "detail": {"addr": conn.addr, "sig": x, "t": t}})
                     break
+            # every message the connection accepted reaches the handler exactly once (also around handler exceptions)
+            acc = collections.Counter(x for t, x in mon.accepted.get(id(conn), ()))
+            disp = collections.Counter(x for t, k, x in evs if k == "message")
+            for x, n_ in disp.items():
+                if n_ > acc.get(x, 0):
+                    vs.append({"kind": "message_event_repeated_or_fabricated", "key": "", "detail": {"addr": conn.addr, "sig": x, "events": n_, "accepted": acc.get(x, 0)}})
+                    break
+            t_last = max([t for t, k, x in evs] + [mon.last_accept.get(id(conn), 0.0)])
+            t_disc = next((t for t, k, x in evs if k == "disconnect"), None)
+            missing = []
+            for t_a, x in mon.accepted.get(id(conn), ()):
+                if disp.get(x, 0) >= acc.get(x, 0):
+                    continue
+                # accepted but never dispatched: only excusable right before the connection went away / the run ended,
+                # or when no later datagram triggered the dispatch (messages that arrived with the challenge response)
+                later_traffic = mon.last_accept.get(id(conn), 0.0) > t_a + 3 * tick
+                gone_soon = (t_disc is not None and t_disc - t_a < 3 * tick + 0.05) or (w.shutdown_t is not None and w.shutdown_t - t_a < 3 * tick + 0.05) \
+                    or w.k.now - t_a < 3 * tick + 0.05
+                if later_traffic and not gone_soon:
+                    missing.append((round(t_a, 4), x))
+            if missing:
+                vs.append({"kind": "accepted_message_never_reached_the_handler", "key": "", "detail": {"addr": conn.addr, "missing": missing[:3], "n": len(missing)}})
             if inc is None:
                 vs.append({"kind": "connected_object_without_matching_client_incarnation", "key": "",
                            "detail": {"addr": conn.addr}})
